@@ -94,6 +94,27 @@ let () =
                { hi_rel = z_of_int rel; hi_cont = cont; hi_vals = vals }) in
            let data = hist_run fops vm c steps in
            Printf.printf "%s\n" (String.concat " " (List.map hex data))
+         | "DEC" ->
+           let pd = ni () in let x = nf () in
+           Printf.printf "%s\n" (hex (dec_round fops (nat_of_int pd) (nat_of_int 400) x))
+         | "NORM" ->
+           (* NORM m nc counts.. nd data.. : normalised data, then denormalised(normalised) *)
+           let m = ni () in let nc = ni () in let counts = nflist nc in let n = ni () in let data = nflist n in
+           let nm = normalise fops (nat_of_int m) counts data in
+           let dn = denormalise fops (nat_of_int m) counts nm in
+           Printf.printf "%s @@ %s\n" (String.concat " " (List.map hex nm)) (String.concat " " (List.map hex dn))
+         | "HISTV" ->
+           (* HISTV stepzero nd lower.. width.. nx.. size weights.. nsteps {rel cont vars(nd x size)..} : gathered vectors *)
+           let sz = ni () <> 0 in let nd = ni () in
+           let lower = nflist nd in let width = nflist nd in let nx = nzlist nd in
+           let size = ni () in let weights = nflist size in
+           let c = { h_lower = lower; h_width = width; h_nx = nx; h_step_zero_data = sz } in
+           let nsteps = ni () in
+           let steps = List.init nsteps (fun _ ->
+               let rel = ni () in let cont = ni () <> 0 in
+               let vars = List.init nd (fun _ -> nflist size) in
+               { hi_rel = z_of_int rel; hi_cont = cont; hi_vals = gather fops vars weights }) in
+           Printf.printf "%s\n" (String.concat " " (List.map hex (hist_run fops true c steps)))
          | "WRITE" | "READ" ->
            let fmt = next () in
            let buf = if w.(0) = "WRITE" && (fmt = "raw" || fmt = "rawg") then ni () else 3 in
@@ -135,6 +156,7 @@ let () =
                match fmt with
                | "multicol" -> print_toks (write_multicol fops g)
                | "raw" | "rawg" -> print_toks (write_raw (nat_of_int buf) g)
+               | "rawbin" -> print_toks (write_raw_bin g)
                | "dx" ->
                  Printf.printf "DX counts%s origin%s delta%s\n"
                    (String.concat "" (List.map (fun z -> " " ^ string_of_int (int_of_z z)) nx))
@@ -145,6 +167,7 @@ let () =
                match fmt with
                | "multicol" -> out (read_multicol fops add g (toks_after ()))
                | "raw" -> out (read_raw fops g (toks_after ()))
+               | "rawbin" -> out (read_raw_bin fops g (toks_after ()))
                | _ -> Printf.printf "?\n"
              end
            end
